@@ -237,26 +237,40 @@ theorem T4_8_accepted_real_trace_powerloss_atomic (C : Contents Content MetaRec 
   have h45 := T4_5_concurrent_powerloss_atomic P d0 hinert cpre crest id m1 w1 hord hcont hwal hseq
   have hph2 : phRun 0 (cinit d0) (cpre ++ CEv.effBegin id (.setMeta m1) :: crest) = 2 := by
     -- the trace wrote the meta page, so it does not end in phase 0; the monitor excludes phase 1
-    have hacc' : cAll (accChk (AllowedPre P d0) (okPost P w1)) 0 (cinit d0)
-        (cpre ++ CEv.effBegin id (.setMeta m1) :: crest) :=
-      cAll_mono _ _ (fun ph s ev h => acc_of_ord_cont P d0 w1 ph s ev h.1 h.2) _ _ _ (cAll_and _ _ _ _ _ hord hcont)
-    have hshape := (accepted_bridge (AllowedPre P d0) (okPost P w1) (okPost_stab P w1) d0 cpre crest id m1 hacc').2.2.2
-      _ (List.prefix_refl _)
-    have hge : 1 ≤ phRun 0 (cinit d0) (cpre ++ CEv.effBegin id (.setMeta m1) :: crest) := by
-      rw [phRun_append]
-      have h0 := (phase0_before_meta (AllowedPre P d0) (okPost P w1) (cinit d0) cpre _
-        (CEv.effBegin id (.setMeta m1)) (by simp) rfl hacc').1
-      rw [h0]
-      simp only [phRun, nextPhase, Eff.isMeta, and_self, if_true]
-      exact phRun_pos _ _ _ (Nat.le_refl 1)
-    generalize lin d0 (cpre ++ CEv.effBegin id (.setMeta m1) :: crest) = l at hshape
-    generalize phRun 0 (cinit d0) (cpre ++ CEv.effBegin id (.setMeta m1) :: crest) = ph at hshape hge hph
-    cases hshape with
-    | before _ _ => omega
-    | issued => exact absurd hph.symm hne1
-    | durable _ _ => rfl
+    have h1 := phRun_pos_of_meta cpre crest id m1 0 (cinit d0)
+    have h2 := phRun_le_two 0 (cinit d0) (cpre ++ CEv.effBegin id (.setMeta m1) :: crest) (by omega)
+    rw [hph] at h1 h2 ⊢
+    omega
   rw [hsplit]
   exact ⟨h45.1, h45.2 hph2⟩
+
+/-- T4.8b the same with the rollback log and the real shape of `wal.write` (clauses of T4.2c, as in T4.9). -/
+theorem T4_8b_accepted_real_trace_powerloss_atomic_with_rollback_log (L : LogParams MetaRec LogRec)
+    (C : Contents Content MetaRec WalRec)
+    (tr : List IoEv2) (st : OrderSt) (hacc : checkOrder tr = .ok st)
+    (d0 : Disk Content MetaRec WalRec LogRec)
+    (hinert : ∀ b, htView P d0 b = d0.pages File.fHt b)
+    (cpre crest : List (CEv Content MetaRec WalRec LogRec)) (id : Nat) (m1 : MetaRec) (w1 : WalRec)
+    (hsplit : absTrace C {} 0 tr = cpre ++ CEv.effBegin id (.setMeta m1) :: crest)
+    (hcont : cAll (contChk (AllowedPreL' P L d0) (contPostL P L (crun (cinit d0) cpre).dur m1 w1)) 0 (cinit d0)
+      (absTrace C {} 0 tr))
+    (hwal : (crun (cinit d0) cpre).dur.wal = some w1)
+    (hseq : P.walSeqn w1 = P.seqn m1) :
+    (∀ cp, cp <+: absTrace C {} 0 tr → ∀ img, IsCImage (crun (cinit d0) cp) img →
+       absOfL P L img = absOfL P L d0 ∨
+       absOfL P L img = (absNew P (crun (cinit d0) cpre).dur m1 w1, absLog L m1 (crun (cinit d0) cpre).dur.log)) ∧
+    (∀ img, IsCImage (crun (cinit d0) (absTrace C {} 0 tr)) img →
+       absOfL P L img = (absNew P (crun (cinit d0) cpre).dur m1 w1, absLog L m1 (crun (cinit d0) cpre).dur.log)) := by
+  obtain ⟨hord, hph, hne1, _⟩ := checkOrder_ok_ordChk C tr st hacc d0
+  rw [hsplit] at hord hcont hph
+  have h49 := T4_9_concurrent_powerloss_atomic_with_rollback_log P L d0 hinert cpre crest id m1 w1 hord hcont hwal hseq
+  have hph2 : phRun 0 (cinit d0) (cpre ++ CEv.effBegin id (.setMeta m1) :: crest) = 2 := by
+    have h1 := phRun_pos_of_meta cpre crest id m1 0 (cinit d0)
+    have h2 := phRun_le_two 0 (cinit d0) (cpre ++ CEv.effBegin id (.setMeta m1) :: crest) (by omega)
+    rw [hph] at h1 h2 ⊢
+    omega
+  rw [hsplit]
+  exact ⟨h49.1, h49.2 hph2⟩
 
 /-- non-vacuity of T4.7 / T4.8: `OToy.goodLines` is a trace in the format of the real hook (three threads, an fsync of
 `ln` issued while a write of `ln` is in flight and repeated afterwards); `checkOrder` accepts it, its abstraction is
